@@ -3,9 +3,10 @@ import ast
 
 from ..index import AnalysisError, attr_chain, norm, own_nodes
 from ..query import (calls_in, call_name, is_value_yield, lines, falsy_edges, assigns, flag_cuts_from)
+from ..index import own_nodes
 from ..condeval import check_cond
 from .common import (TLSCONN, TLSREC, RECLAYER, nodes_with_call, consumes_of, dead_edge_labels,
-                     must_pass, senderror_desc)
+                     must_pass, senderror_desc, gate_table)
 from . import c01shared
 
 EXPLANATION = (
@@ -357,6 +358,88 @@ def rule_map(ctx):
               "that order and on every path", se.loc())
 
 
+def _stmt(frag):
+    return lambda n: n.kind in ("stmt", "return") and n.ast is not None and frag in norm(n.ast)
+
+
+def rule_lengths(ctx):
+    """publicly-invalid records (too short, not a block multiple, bad padding) are refused before the
+    operation that would otherwise misbehave on them; SSLv2 MAC; TLS 1.3 inner plaintext cap."""
+    R = "C02.LENGTHS"
+    etm = {"self._readState.macContext": "F"}
+    enc = {"self._readState.encContext": "F"}
+    gate_table(ctx, R, RECLAYER + "_macThenDecrypt", [
+        dict(what="EtM: record at least as long as the MAC before the MAC is cut off", text="len(buf) < macLength",
+             fail="T", protects=_stmt("checkBytes = buf[-macLength:]"),
+             cond=({"len(buf)": [0, 19, 20, 21], "macLength": [20]}, lambda e: e["len(buf)"] < 20)),
+        dict(what="EtM: ciphertext is a multiple of the block size before decryption",
+             text="len(buf) % blockLength != 0", fail="T", protects=_stmt("encContext.decrypt(buf)")),
+        dict(what="EtM: data left after removing the explicit IV", text="len(buf) == 0", fail="T",
+             protects=_stmt("paddingLength = buf[-1]")),
+        dict(what="EtM: padding length fits in the record", text="paddingLength + 1 > len(buf)", fail="T",
+             protects=_stmt("buf = buf[:-totalPaddingLength]"),
+             cond=({"paddingLength": [0, 3, 4, 5, 255], "len(buf)": [4]}, lambda e: e["paddingLength"] + 1 > 4)),
+        dict(what="EtM: padding bytes all equal the padding length (TLS)", text="not paddingGood", fail="T",
+             protects=_stmt("buf = buf[:-totalPaddingLength]")),
+    ], sinks="return")
+    fi = ctx.index.func(RECLAYER + "_macThenDecrypt")
+    src = [norm(x) for x in own_nodes(fi.node)]
+    ok = any(s == "if byte != paddingLength: paddingGood = False" or "byte != paddingLength" in s for s in src) and \
+        "paddingBytes = buf[-totalPaddingLength:-1]" in src and any("self.version != (3, 0)" in s for s in src)
+    ctx.check(R, ok, fi.qname, "EtM: every padding byte compared with the padding length (except SSLv3)",
+              "the encrypt-then-MAC path must compare every padding byte with the padding length", fi.loc())
+    gate_table(ctx, R, RECLAYER + "_decryptThenMAC", [
+        dict(what="CBC: ciphertext is a multiple of the block size before decryption",
+             text="len(data) % blockLength != 0", fail="T", protects=_stmt("encContext.decrypt(data)")),
+    ])
+    gate_table(ctx, R, RECLAYER + "_decryptAndUnseal", [
+        dict(what="AEAD: record long enough for the explicit nonce", text="explicitNonceLength > len(buf)", fail="T",
+             protects=_stmt("buf[:explicitNonceLength]")),
+        dict(what="AEAD: record long enough for the tag", text="self._readState.encContext.tagLength > len(buf)",
+             fail="T", protects=_stmt(".open(nonce, buf, authData)")),
+    ])
+    gate_table(ctx, R, RECLAYER + "_decryptSSL2", [
+        dict(what="SSLv2: MAC compared, mismatch raises", text="macBytes != calcMac", fail="T",
+             cut_tests=etm, msg="an SSLv2 record can be accepted without a verified MAC"),
+    ], sinks="return")
+    f2 = ctx.index.func(RECLAYER + "_decryptSSL2")
+    src = [norm(x) for x in own_nodes(f2.node) if isinstance(x, (ast.Assign, ast.Expr))]
+    ok = "mac.update(compatHMAC(data))" in src and "mac.update(compatHMAC(seqnumBytes[-4:]))" in src and \
+        "macBytes = data[:16]" in src and "calcMac = bytearray(mac.digest())" in src
+    ctx.check(R, ok, f2.qname, "SSLv2 MAC over data and the low 32 bits of the sequence number",
+              "the SSLv2 receive MAC must cover the data and the sequence number", f2.loc())
+    gate_table(ctx, R, RECLAYER + "recvRecord", [
+        dict(what="TLS 1.3: inner plaintext (with content type) capped at limit + 1",
+             text="len(data) > self.recv_record_limit + 1", fail="T", protects=_stmt("self._tls13_de_pad(data)"),
+             cond=({"len(data)": [16384, 16385, 16386], "self.recv_record_limit": [16384]},
+                   lambda e: e["len(data)"] > 16385)),
+        dict(what="plaintext capped at the negotiated receive limit", text="len(data) > self.recv_record_limit",
+             fail="T", protects=lambda n: is_value_yield(n) and "Parser(data)" in norm(n.ast),
+             cond=({"len(data)": [16383, 16384, 16385], "self.recv_record_limit": [16384]},
+                   lambda e: e["len(data)"] > 16384)),
+    ], sinks="yield")
+    dp = ctx.index.func(RECLAYER + "_tls13_de_pad")
+    g = ctx.an.cfg(dp)
+    rs = [n for n in g.nodes if n.kind == "raise" and "TLSUnexpectedMessage" in norm(n.ast)]
+    rets = [n for n in g.nodes if n.kind == "return"]
+    okd = bool(rs) and len(rets) == 1 and norm(rets[0].ast) == "return (data[:pos], value)"
+    t = [x for x in g.nodes if x.kind == "test" and norm(x.expr) == "value != 0"]
+    ctx.check(R, okd and bool(t), dp.qname, "TLS 1.3 de-padding: content type = last non-zero byte; all-zero is fatal",
+              "_tls13_de_pad must strip trailing zeros, return the last non-zero byte as content type and refuse an "
+              "all-zero inner plaintext", dp.loc())
+    gate_table(ctx, R, "recordlayer:RecordSocket._recvHeader", [
+        dict(what="SSLv2 header: padding not longer than the record and only with block-multiple length",
+             frag="record.padding > record.length", fail="T", cut_tests={"ssl2": "F"}),
+    ], sinks="yield")
+    gate_table(ctx, R, TLSREC + "_getNextRecordFromSocket", [
+        dict(what="empty records of any type but application data are refused",
+             text="header.type != ContentType.application_data and parser.getRemainingLength() == 0", fail="T",
+             cond=({"header.type": [22, 23], "ContentType.application_data": [23], "parser.getRemainingLength()": [0, 1]},
+                   lambda e: e["header.type"] != 23 and e["parser.getRemainingLength()"] == 0)),
+        dict(what="unknown content types are refused", text="header.type not in ContentType.all", fail="T"),
+    ], sinks="yield")
+
+
 def rule_shared(ctx):
     c01shared.rule_dir(ctx, "C02.DIR")
     c01shared.rule_seq(ctx, "C02.SEQ")
@@ -371,5 +454,6 @@ RULES = [
     ("C02.HDR13", "quick", rule_hdr13),
     ("C02.EPOCH", "quick", rule_epoch),
     ("C02.MAP", "quick", rule_map),
+    ("C02.LENGTHS", "quick", rule_lengths),
     ("C02.SHARED", "quick", rule_shared),
 ]
